@@ -7,7 +7,7 @@ import (
 
 // C11: when a non-voter is promoted.
 
-//verif:check C11,C08 stubs=env,valuefile,abslog reach=promoted,not-yet,restarted-round,end desc="leader.checkConfigAction for a non-voter marked Promote, from any round state (none, in progress, finished, finished once and begun again) and replication progress: a configuration making it a voter is appended only if its current round is finished, its match index reached the round's target, and either it holds everything the leader has or the round took no longer than the promote threshold" bounds="2 nodes (leader voter, follower non-voter with Promote), log of 2 entries, symbolic match index and round state/instants"
+//verif:check C11,C08,C17 stubs=env,valuefile,abslog reach=promoted,not-yet,restarted-round,end desc="leader.checkConfigAction for a non-voter marked Promote, from any round state (none, in progress, finished, finished once and begun again) and replication progress: a configuration making it a voter is appended only if its current round is finished, its match index reached the round's target, and either it holds everything the leader has or the round took no longer than the promote threshold" bounds="2 nodes (leader voter, follower non-voter with Promote), log of 2 entries, symbolic match index and round state/instants"
 func VH_C11_promotion() {
 	r, l, _ := vMkLeader(2, 2, false)
 	cfg := r.configs.Latest
@@ -78,6 +78,9 @@ func VH_C11_promotion() {
 		}
 	} else {
 		vReach("not-yet")
+		// progress (C17): a node that holds everything the leader has is promoted in this very step, whatever state its
+		// round is in - on an idle cluster nothing would re-evaluate it later
+		vAssert(st.matchIndex < last0, "P-caught-up-node-is-promoted-now")
 	}
 	vReach("end")
 }
